@@ -62,6 +62,7 @@ func main() {
 		var cmds [][]string
 		cmds = append(cmds, g.Prelude()...)
 		nsetup := len(cmds)
+		cmds = append(cmds, g.Aliasing(pn)...)
 		n := *steps/2 + g.R.Intn(*steps)
 		for i := 0; i < n; i++ {
 			cmds = append(cmds, g.Next())
